@@ -1,6 +1,8 @@
 import NeoFS.Base.Parse
 import NeoFS.Gen.Handlers
 import NeoFS.Model.CtlAuth
+import NeoFS.Model.ReqAuth
+import NeoFS.Model.GetRelay
 /-!
 Model side of engine `rpc` (C29, C45, C32): the expected refusal of a request is computed from the
 REGENERATED skeleton of the handler. A scenario forces the outcome of some checks (all others pass, results of
@@ -48,7 +50,90 @@ def ctlVerdict (l : List (String × Prog)) (h sc : String) : String :=
     else if verdict p [(.ctlSig, .deny)] then "=> denied" else "=> passed"
   | _, _ => "=> bad-op"
 
+/-! ### op `auth`: who is the request authenticated as (Model/ReqAuth.lean) -/
+
+/-- keys of the harness: the container owner, the usual client, a stranger -/
+def rpcAuthKey? : String → Option String
+  | "owner" => some "owner" | "client" => some "client" | "other" => some "other" | _ => none
+
+def rpcAuthReq? (o : OpLine) : Option (ReqAuth.Req String) := do
+  let tls ← match ← o.get? "tls" with
+    | "none" => some none
+    | k => (rpcAuthKey? k).map some
+  let ttl ← match ← o.get? "ttl" with
+    | "1" => some 1 | "2" => some 2 | _ => none
+  let who ← match ← o.get? "who" with
+    | "owner" => some "owner" | "client" => some "client" | _ => none
+  let vh ← match ← o.get? "vh" with
+    | "none" => some none
+    | "ok" => some (some (who, true))
+    | "bad" | "forged" => some (some (who, false))
+    | _ => none
+  if tls == some "client" then none
+  else some { tls := tls, ttl := some ttl, vh := vh }
+
+/-- The container of the `auth` ops is private and has no extended ACL: only its owner passes the basic ACL.
+Whether the handler consults a stage at all is read from its regenerated skeleton. -/
+def rpcAuthStep (o : OpLine) : String :=
+  match (o.get? "h").bind (findHandler Gen.objectHandlers), rpcAuthReq? o with
+  | some p, some r =>
+    if o.get? "h" == some "Replicate" then "=> bad-op"
+    else if !reachesEffect [] p then "=> refused st=stub"
+    else match ReqAuth.authenticate r with
+      | .badSignature => if verdict p [(.sig, .deny)] then "=> refused st=signature" else "=> served id=-"
+      | .noAuthor => if verdict p [(.reqInfo, .deny)] then "=> refused st=badrequest" else "=> served id=-"
+      | .identity k _ =>
+        let role := if k == "owner" then "owner" else "others"
+        let id := k ++ "/" ++ role
+        if role == "owner" then "=> served id=" ++ id
+        else if verdict p [(.basic, .deny)] then "=> refused st=denied id=" ++ id else "=> served id=" ++ id
+  | _, _ => "=> bad-op"
+
+/-! ### op `relay`: header-time eACL re-check of GET (Model/GetRelay.lean) -/
+
+def rpcRelayStep (o : OpLine) : String :=
+  let r : Option String := do
+    let src ← o.get? "src"
+    let po ← match ← o.get? "po" with | "0" => some false | "1" => some true | _ => none
+    let req ← o.get? "req"
+    let hdr ← match ← o.get? "class" with
+      | "open" => some GetRelay.Verdict.pass | "secret" => some .deny | _ => none
+    let chunks ← o.nat? "chunks"
+    let ln ← o.nat? "len"
+    let bad ← o.get? "bad"
+    if chunks > 8 || ln < 1 || ln > 4096 then none
+    if !(req == "pass" || req == "soft" || req == "deny") then none
+    if !(bad == "none" || bad == "chunkfirst" || bad == "twohdr" || bad == "short") then none
+    if src == "local" && bad != "none" then none
+    if (bad == "chunkfirst" || bad == "short") && chunks == 0 then none
+    let c : GetRelay.Cfg := { recheck := req == "soft", suppressInit := po, hdr := hdr, plen := chunks * ln }
+    let showRes (t : List GetRelay.Ev) (res : GetRelay.Res) : String :=
+      let s : GetRelay.St := { trace := t }
+      let tail := " init=" ++ toString (GetRelay.sentInits s) ++ " bytes=" ++ toString (GetRelay.sentBytes s)
+      match res with
+      | .done => "=> served" ++ tail ++ " same=" ++ (if GetRelay.sentBytes s == c.plen then "1" else "0")
+      | .denied => "=> refused st=denied" ++ tail
+      | .notFound => "=> refused st=code2049" ++ tail
+    if req == "deny" then some "=> refused st=denied init=0 bytes=0"
+    else if src == "local" then
+      let (t, res) := GetRelay.localGet c
+      some (showRes t res)
+    else if src == "remote" then
+      let cs := List.replicate chunks (GetRelay.Msg.chunk ln)
+      let msgs : List GetRelay.Msg := match bad with
+        | "chunkfirst" => cs.take 1 ++ [.init] ++ cs.drop 1
+        | "twohdr" => [.init, .init] ++ cs
+        | "short" => [.init] ++ cs.drop 1
+        | _ => [.init] ++ cs
+      let (s, res) := GetRelay.run c {} [msgs]
+      some (showRes s.trace res)
+    else none
+  r.getD "=> bad-op"
+
 def rpcStep (o : OpLine) : String :=
+  if o.name == "auth" then rpcAuthStep o
+  else if o.name == "relay" then rpcRelayStep o
+  else
   match o.name, o.get? "h", o.get? "sc" with
   | "obj", some h, some sc =>
     match findHandler Gen.objectHandlers h, objScenario sc with
